@@ -523,6 +523,8 @@ fn entry_lane(ctx: &mut Ctx, _idx: u64) {
 pub const REL_FIELDS_SRC: [&str; 3] = ["Build-Depends", "Build-Depends-Indep", "Build-Conflicts"];
 pub const REL_FIELDS_BIN: [&str; 5] = ["Depends", "Recommends", "Suggests", "Pre-Depends", "Breaks"];
 
+const ODD_OPERATORS: [&str; 5] = ["foo (< 1.0)", "foo (> 1.0), bar", "baz (1.0)", "a (== 1) | b", "zlib (<> 2), libc6 (>= 2.14)"];
+
 pub fn gen_control(r: &mut Rng, substvars: bool) -> String {
     let ro = ROpts { ws_level: 1, substvars, epochs: false, negated_archs: false, multi_term_profiles: false, ..ROpts::default() };
     let mut t = String::new();
@@ -537,6 +539,11 @@ pub fn gen_control(r: &mut Rng, substvars: bool) -> String {
         src.push_str("Uploaders: Ann <a@e.org>,   Bob <b@e.org>,\n Cy <c@e.org>\n");
     }
     for f in REL_FIELDS_SRC {
+        if r.chance(1, 12) {
+            // not a relationship field by today's grammar (deprecated or mistyped operator), but an error-free deb822 field
+            src.push_str(&format!("{}: {}\n", f, r.pick_s(&ODD_OPERATORS)));
+            continue;
+        }
         if r.chance(1, 2) {
             let g = relgen::gen_field(r, &ro);
             if g.text.trim().is_empty() {
@@ -556,6 +563,10 @@ pub fn gen_control(r: &mut Rng, substvars: bool) -> String {
         }
         b.push_str(&format!("Package: {}\nArchitecture: any\n", r.pick_s(&["zlib", "foo", "bar-dev", "a1", "libx"])));
         for f in REL_FIELDS_BIN {
+            if r.chance(1, 20) {
+                b.push_str(&format!("{}: {}\n", f, r.pick_s(&ODD_OPERATORS)));
+                continue;
+            }
             if r.chance(1, 3) {
                 let g = relgen::gen_field(r, &ro);
                 if g.text.trim().is_empty() {
@@ -662,10 +673,13 @@ fn control_lane(ctx: &mut Ctx, idx: u64) {
             let want: Vec<String> = if is_rel {
                 // differential: the crate's own relation normaliser on the same text (C13 checks that function)
                 let rel = guard(vin.len() + 64, || {
-                    debian_control::lossless::relations::Relations::parse_relaxed(vin, true).0.wrap_and_sort().to_string()
+                    let (rel, errs) = debian_control::lossless::relations::Relations::parse_relaxed(vin, true);
+                    // a value the relation reader does not accept is kept as it is
+                    if errs.is_empty() { Some(rel.wrap_and_sort().to_string()) } else { None }
                 });
                 match rel {
-                    Ok(t) => norm_lines(&t),
+                    Ok(Some(t)) => norm_lines(&t),
+                    Ok(None) => norm_lines(vin),
                     Err(_) => continue,
                 }
             } else if k == "Uploaders" {
